@@ -362,7 +362,7 @@ package coordinator
 // the group handed to ShardFor must contain the point's time, not be deleted and not be truncated at or before it.
 //@ pure designates_ns(g, n) = n >= nanos(g.StartTime) && n < nanos(g.EndTime) && g.DeletedAt.IsZero() && (g.TruncatedAt.IsZero() || n < nanos(g.TruncatedAt))
 //@ func (*PointsWriter).MapShards
-//@   props C08
+//@   props C08 C17
 //@   nosafety
 //@   ghost pt int = 0
 //@   at after Time#4: ghost pt = nanos(callresult)
